@@ -28,7 +28,13 @@ __asm__(".text\n.globl sim_call_sysv\n.type sim_call_sysv,@function\nsim_call_sy
 static int64_t call_typed(void *addr, const std::string &ps, char rt, const int64_t *ia) {
   uint64_t iregs[6] = {0}, fregs[8] = {0}; std::vector<uint64_t> st; int ni = 0, nf = 0, ai = 0, di = 0;
   for (char c : ps) {
-    if ((c != 'd' && c != 'f' && c != 'l')) { uint64_t v = (uint64_t) ia[ai++]; if (ni < 6) iregs[ni++] = v; else st.push_back(v); }
+    const char *bf = c == 'S' ? "q" : c == 'T' ? "qq" : c == 'P' ? "dd" : c == 'M' ? "qd" : c == 'N' ? "dq" : c == 'G' ? "qqq" : nullptr;  // by-value aggregates (prog/dsl.hpp)
+    if (bf) {
+      int64_t v = ia[ai++]; uint64_t w[3]; int n = 0, qi = 0, qd = 0;
+      for (; bf[n]; n++) { uint64_t raw = (uint64_t) v + (uint64_t) n; if (bf[n] == 'q') { w[n] = raw; qi++; } else { double x = (double) (raw & 0xffff); memcpy(&w[n], &x, 8); qd++; } }
+      bool in_regs = n <= 2 && ni + qi <= 6 && nf + qd <= 8;   // every eightbyte needs a register of its class, else the whole aggregate goes to memory
+      for (int j = 0; j < n; j++) { if (!in_regs) st.push_back(w[j]); else if (bf[j] == 'q') iregs[ni++] = w[j]; else fregs[nf++] = w[j]; }
+    } else if ((c != 'd' && c != 'f' && c != 'l')) { uint64_t v = (uint64_t) ia[ai++]; if (ni < 6) iregs[ni++] = v; else st.push_back(v); }
     else if (c == 'd') { double x = 2.0 + di++; uint64_t b; memcpy(&b, &x, 8); if (nf < 8) fregs[nf++] = b; else st.push_back(b); }
     else if (c == 'f') { float x = 2.0f + (float) di++; uint32_t b; memcpy(&b, &x, 4); uint64_t w = 0xdeadbeef00000000ull | b; if (nf < 8) fregs[nf++] = w; else st.push_back(w); }
     else { long double x = 2.0L + di++; if (st.size() & 1) st.push_back(0x5a5a5a5a5a5a5a5aull); uint64_t w[2] = {0, 0}; memcpy(w, &x, 10); st.push_back(w[0]); st.push_back(w[1]); }
